@@ -228,7 +228,9 @@ pub fn rand_settings(rng: &mut Rng, reg: &PortableRegistry, cfg: &SetCfg) -> Set
                 .find(|t| t.ty.path.segments == p)
                 .map(|t| t.ty.type_params.iter().filter(|p| p.ty.is_some()).count())
                 .unwrap_or(0);
-            let names = ["A", "B", "C", "D"];
+            // parameter names in the user's style or in the generator's own `_i` style
+            let gen_style = rng.chance(1, 4);
+            let names = if gen_style { ["_0", "_1", "_2", "_3"] } else { ["A", "B", "C", "D"] };
             let declared = if rng.chance(1, 2) { 0 } else { (np + rng.below(3)).saturating_sub(1).min(4) };
             let src = if declared == 0 {
                 p.join("::")
@@ -256,6 +258,17 @@ pub fn rand_settings(rng: &mut Rng, reg: &PortableRegistry, cfg: &SetCfg) -> Set
                 "::ext::Arr<::ext::Q<[B; 2]>, A>".into(),
             ];
             let mut tgt = rng.pick(&tgt_pool).clone();
+            if gen_style {
+                // rename A..D in the target (whole identifiers only: they are followed by , > or ])
+                for (a, b) in [("A", "_0"), ("B", "_1"), ("C", "_2"), ("D", "_3")] {
+                    for end in [",", ">", ";", ")"] {
+                        tgt = tgt.replace(&format!("<{a}{end}"), &format!("<{b}{end}"));
+                        tgt = tgt.replace(&format!(" {a}{end}"), &format!(" {b}{end}"));
+                        tgt = tgt.replace(&format!("({a}{end}"), &format!("({b}{end}"));
+                        tgt = tgt.replace(&format!("[{a}{end}"), &format!("[{b}{end}"));
+                    }
+                }
+            }
             if declared == 0 && rng.chance(2, 3) {
                 tgt = rng.pick(&["::ext::Subst", "crate::ext::Other", "::ext::deep::Path"]).to_string();
             }
